@@ -1,6 +1,7 @@
 import RactorModel.Extracted
 import RactorModel.Lemmas.LifeC04
 import RactorModel.Lemmas.LifeWorld
+import RactorModel.Lemmas.LifeResidue
 
 /-!
 # C04 — Failures are contained and reported to the supervisor exactly once
@@ -76,6 +77,18 @@ theorem prestart_failure_silent (a : Actor) (r : SpawnRet) :
   intro p e
   simp [failSpawn, (Life.C04.cleanup_none a).1]
 
+/-- Clause (iv) in full, for all schedules: after a spawn that failed (`pre_start` Err / panic, kill
+during start-up, refused link) or whose future was dropped — at any await point, after any side
+effects — the trace is accepted by `Life.Residue.next`: no callback of that actor ever runs, no
+supervision event is emitted for it, every later observable snapshot shows status `Stopped`, no
+supervisor, no child-set membership, the name released, no group membership; sends are refused,
+pending waiters are released, calls queued to it are resolved (never answered). (This is the
+`Life`-level statement of what C08 demands; C08 itself is decided by its own check. The driver
+model `life-residue` runs this automaton, plus the registry frame clauses, on the implementation's
+traces.) -/
+theorem failed_spawn_leaves_nothing (id : Nat) (ops : List AOp) : Life.Residue.ok (trace id ops) = true :=
+  Life.Residue.residue_ok id ops
+
 /-! ### E-SRC obligations -/
 
 theorem src_cleanup_order : Extracted.cleanupOrder = Life.cleanupSteps := by decide
@@ -133,6 +146,7 @@ end C04
 #print axioms C04.reported_once_world
 #print axioms C04.invariant
 #print axioms C04.prestart_failure_silent
+#print axioms C04.failed_spawn_leaves_nothing
 #print axioms C04.src_cleanup_order
 #print axioms C04.src_terminate_condition
 #print axioms C04.src_status
